@@ -173,3 +173,104 @@ class CText(str):
 def U(node):
     """Canonical text of an AST node (use instead of ast.unparse wherever text is compared)."""
     return CText(_canon_text(node))
+
+
+def purity_obligations(prog, rule, classes, file_of=None, methods=None):
+    """One obligation per method of the given classes: no in-place update of a caller-owned argument (directly or through a
+    view / alias).  Decided by the ownership engine (may-alias x in-place sinks); a fresh copy made first discharges it."""
+    from ..own import Ownership, param_mutations
+    from ..model import qual
+    own = Ownership(prog)
+    out = []
+    for ci in classes:
+        for mname, fn in ci.methods.items():
+            if methods is not None and mname not in methods:
+                continue
+            hits = param_mutations(own, ci, fn)
+            msg = ""
+            if hits:
+                pn, line, text = hits[0]
+                msg = (f"`{text}` (line {line}) updates the caller's `{pn}` in place (possibly through a view or alias): the array "
+                       f"handed in - model predictions, hyper-parameters, query points - is silently changed for every later use")
+            out.append(struct_ob(rule, qual(ci, fn), not hits, msg, ci.module.relpath, hits[0][1] if hits else fn.lineno,
+                                 slots={"sinks": [list(h) for h in hits]}, nontrivial=bool(len(fn.args.args) > 1)))
+    return out
+
+
+def default_instance_obligations(prog, rule, sites):
+    """One obligation per (class, method): no parameter default constructs a stateful repository object (such an object
+    is created once, at import, and shared - with whatever was last passed to it - by every call that relies on the default)."""
+    from .. import lints
+    from ..model import qual
+    out = []
+    for cname, mname in sites:
+        ci, fn = prog.method(cname, mname)
+        hits = lints.shared_default_instances(prog, ci.module, fn)
+        msg = ""
+        if hits:
+            pn, cls, meth = hits[0]
+            msg = (f"the default of `{pn}` is an instance `{cls}()` created once at import; {cls}.{meth} stores per-problem state on it, so every "
+                   f"object built with the default shares (and overwrites) that state")
+        out.append(struct_ob(rule, qual(ci, fn), not hits, msg, ci.module.relpath, fn.lineno, slots={"defaults": [list(h) for h in hits]}))
+    # positive example: the lint must still recognise the pattern
+    ex = ast.parse("def f(self, k=SquaredExponential()):\n    pass\n").body[0]
+    if prog.has_cls("SquaredExponential") and not lints.shared_default_instances(prog, None, ex):
+        raise AnalysisError("shared-default lint lost its positive example")
+    return out
+
+
+def refresh_obligation(prog, rule, cname, mname):
+    """A state-refreshing method (set_hyperparameters ...) must re-derive every attribute it maintains on every normal path.
+    A conditional refresh (memoisation) is accepted only when every attribute consulted by the guard owns its data - a key
+    that aliases the caller's array compares the array with itself after an in-place edit, and the stale state survives."""
+    from ..own import Ownership, class_attr_aliases, root_param
+    from ..model import qual
+    ci, fn = prog.method(cname, mname)
+    sn = fn.args.args[0].arg
+
+    def assigned(stmts):
+        """(definitely assigned attrs, all assigned attrs, [(attr, guarding If)] for conditional ones)."""
+        must, anyw, cond = set(), set(), []
+        for st in stmts:
+            if isinstance(st, ast.Assign):
+                for t in st.targets:
+                    for x in ast.walk(t):
+                        if isinstance(x, ast.Attribute) and isinstance(x.value, ast.Name) and x.value.id == sn and isinstance(x.ctx, ast.Store):
+                            must.add(x.attr)
+                            anyw.add(x.attr)
+            elif isinstance(st, ast.If):
+                m1, a1, c1 = assigned(st.body)
+                m2, a2, c2 = assigned(st.orelse)
+                raises1 = bool(st.body) and isinstance(st.body[-1], ast.Raise)
+                raises2 = bool(st.orelse) and isinstance(st.orelse[-1], ast.Raise)
+                both = (m2 if raises1 else m1 if raises2 else (m1 & m2))
+                must |= both
+                anyw |= a1 | a2
+                cond += c1 + c2 + [(a, st) for a in (a1 | a2) - both - {a for a, _ in c1 + c2}]
+            elif isinstance(st, (ast.For, ast.While)):
+                m1, a1, c1 = assigned(st.body)
+                anyw |= a1
+                cond += c1 + [(a, st) for a in a1]
+            elif isinstance(st, (ast.With, ast.Try)):
+                m1, a1, c1 = assigned(st.body)
+                must |= m1
+                anyw |= a1
+                cond += c1
+        return must, anyw, cond
+    must, anyw, cond = assigned(fn.body)
+    cond = [(a, st) for a, st in cond if a not in must]
+    why = []
+    if cond:
+        own = Ownership(prog)
+        attr_out, _ = class_attr_aliases(own, prog, ci, ctor=mname)
+        for a, st in cond:
+            keys = sorted({x.attr for x in ast.walk(st.test) if isinstance(x, ast.Attribute) and isinstance(x.value, ast.Name) and x.value.id == sn}) \
+                if isinstance(st, ast.If) else []
+            shared = [k for k in keys if any(root_param(r) is not None for r in attr_out.get(k, ()))]
+            if not keys:
+                why.append(f"self.{a} is refreshed only conditionally (line {st.lineno}) and the guard consults no stored key")
+            elif shared:
+                why.append(f"self.{a} is refreshed only when `{U(st.test)}` (line {st.lineno}), but the stored key self.{shared[0]} may alias the "
+                           f"caller's array: after an in-place edit of that array the guard compares it with itself and the stale value is kept")
+    return struct_ob(rule, qual(ci, fn), not why, "; ".join(why[:3]), ci.module.relpath, fn.lineno,
+                     slots={"maintained": sorted(anyw), "conditional": sorted({a for a, _ in cond})})
